@@ -346,6 +346,23 @@ class Summariser:
                 alts = [ast.copy_location(ast.Call(func=ip.func, args=[copy.deepcopy(ip.args[0]), c], keywords=[]), ip) for c in classes]
                 self._test(ast.copy_location(ast.BoolOp(op=ast.Or(), values=alts), ip), p, cont_true, cont_false, True)
                 return
+        # a conditional expression inside the test (pure condition, not under a lambda / comprehension): one path per alternative
+        ife = next((n for n in _walk_eager(e2) if isinstance(n, ast.IfExp) and norm.is_pure(n.test, _PURE)), None)
+        if ife is not None:
+            # (deepcopy breaks identity: the node is located by position in the copy)
+            idx_ = [i for i, n in enumerate(_walk_eager(e2)) if n is ife][0]
+
+            def pick(arm_name):
+                e3 = copy.deepcopy(e2)
+                tgt = list(_walk_eager(e3))[idx_]
+
+                class R(ast.NodeTransformer):
+                    def visit_IfExp(self, node):
+                        return getattr(node, arm_name) if node is tgt else self.generic_visit(node)
+                return R().visit(e3)
+            self._test(ife.test, p, lambda q: self._test(pick("body"), q, cont_true, cont_false, True),
+                       lambda q: self._test(pick("orelse"), q, cont_true, cont_false, True), True)
+            return
         neg = _canon_neg(e2)
         a, b = self._fork(p), self._fork(p)
         t = neg if neg is not None else e2
@@ -722,6 +739,10 @@ def _const_truth(t):
                 return a >= b
     if isinstance(t, ast.Constant) and not isinstance(t.value, str):
         return bool(t.value)
+    # a length / number / display is never None
+    if isinstance(t, ast.Compare) and len(t.ops) == 1 and isinstance(t.ops[0], (ast.Is, ast.IsNot)) and isinstance(t.comparators[0], ast.Constant) \
+            and t.comparators[0].value is None and norm._never_none(t.left, {}):
+        return isinstance(t.ops[0], ast.IsNot)
     return None
 
 
@@ -761,6 +782,18 @@ def _feasible(tests, t, taken):
             if not taken and not k and me[1] <= other[1]:
                 return "known"
     return True
+
+
+def _walk_eager(e):
+    """the sub-expressions evaluated when e is (not the bodies of lambdas / comprehension elements), in a fixed order"""
+    yield e
+    if isinstance(e, (ast.Lambda, ast.ListComp, ast.SetComp, ast.DictComp, ast.GeneratorExp)):
+        return
+    for ch in ast.iter_child_nodes(e):
+        if isinstance(ch, ast.expr):
+            yield from _walk_eager(ch)
+        elif isinstance(ch, ast.keyword):
+            yield from _walk_eager(ch.value)
 
 
 def _has_ifexp(e) -> bool:
